@@ -11,7 +11,7 @@ use std::rc::Rc;
 pub static ENGINE: Engine = Engine {
     prop: "C19",
     level: "model_checking",
-    rule: "explicit-state BFS over ALL pairs (A,B) of subsets of the b-bit universe (b=2: 256 states, b=3: 65536); every state is rebuilt on real BDDSets in a fresh environment by replaying its BFS path from the empty pair; from every state every operation insert(X,e), union/intersect/complement(X,Y) with (X,Y) in {(A,B),(B,A),(A,A),(B,B)}, empty, universe and the query contains(X,e) is executed on the real sets and then membership of EVERY element of BOTH sets is asked forwards and backwards and compared with the reference masks; plus every operation sequence up to depth 4 (5) for b=2 and 3 (4) for b=3 on one long-lived pair without cloning; long insert/query patterns in which one 4-bit set sees all 16 elements; wider universes (b = 4..8, 16, 32, 64): every sequence of <= 2 (3) operations with membership observed on a pool of six elements (0, 1, 2^(b-1), 2^b-1, ...) against a reference that tracks the pool and 'everything else'. distinct = distinct (state, operation) pairs executed + distinct long-lived sequences",
+    rule: "explicit-state BFS over ALL pairs (A,B) of subsets of the b-bit universe (b=2: 256 states, b=3: 65536); every state is rebuilt on real BDDSets in a fresh environment by replaying its BFS path from the empty pair; from every state every operation insert(X,e), union/intersect/complement(X,Y) with (X,Y) in {(A,B),(B,A),(A,A),(B,B)}, empty, universe and the query contains(X,e) is executed on the real sets and then membership of EVERY element of BOTH sets is asked forwards and backwards and compared with the reference masks; plus every operation sequence up to depth 4 (5) for b=2 and 3 (4) for b=3 on one long-lived pair without cloning; long insert/query patterns in which one 4-bit set sees all 16 elements; for b = 4 a representative of each of the 222 classes of subsets (under bit permutation / negation / complement) against ALL 65 536 subsets under union / intersect / difference in both operand positions; wider universes (b = 4..8, 16, 32, 64): every sequence of <= 2 (3) operations with membership observed on a pool of six elements (0, 1, 2^(b-1), 2^b-1, ...) against a reference that tracks the pool and 'everything else'. distinct = distinct (state, operation) pairs executed + distinct long-lived sequences",
     assumptions: &["reference = bit masks with the usual set operations; complement(X,Y) is set difference X \\ Y as the property states", "bounds: universe of 2^b elements with b <= 3, two sets, sequences on a long-lived pair up to depth 4"],
     max_shards: 64,
     run,
@@ -472,7 +472,80 @@ fn long_histories_b4(ctx: &mut Ctx) {
     }
 }
 
+/// b = 4: a representative of every class of 16-element subsets (the 222 classes of
+/// four-variable functions under bit permutation / bit negation / complement) against EVERY
+/// one of the 65 536 subsets, for union / intersect / set difference in both operand
+/// positions. Every subset is built once per worker by real inserts (ascending), its
+/// membership answers are checked for all 16 elements (each subset by the worker that owns
+/// it); a binary operation is judged by comparing the receiver's diagram with the
+/// insert-built set of the expected subset, and, when the diagrams differ, by asking all 16
+/// membership questions. A violation is reported as the insert history that reproduces it.
+fn pairs_b4(ctx: &mut Ctx) {
+    let env = Rc::new(BDDEnv::new());
+    let mut sets: Vec<BDDSet> = Vec::with_capacity(65536);
+    sets.push(BDDSet::with_env(4, &env));
+    for m in 1..65536usize {
+        let top = 15 - (m as u16).leading_zeros() as usize;
+        let s = sets[m & !(1 << top)].clone();
+        s.insert(top);
+        sets.push(s);
+    }
+    let history = |a: usize, b: usize, op: Op| -> Vec<Op> {
+        let mut h: Vec<Op> = (0..16u8).filter(|e| (a >> e) & 1 == 1).map(|e| Op::Insert(0, e)).collect();
+        h.extend((0..16u8).filter(|e| (b >> e) & 1 == 1).map(|e| Op::Insert(1, e)));
+        h.push(op);
+        h
+    };
+    let reps: Vec<usize> = crate::closure::npn_reps4().into_iter().map(|t| t as usize).collect();
+    ctx.global("subset_classes_b4", reps.len() as u64);
+    for b in 0..65536usize {
+        if !ctx.mine(b as u64) {
+            continue;
+        }
+        // the insert-built subset answers all membership questions correctly
+        ctx.begin_case(|| case_json(4, &history(b, 0, Op::Contains(0, 0))));
+        let pair = [sets[b].clone(), sets[0].clone()];
+        if let Err(m) = check_queries(&pair, &[b as u16, 0], 4) {
+            let h = history(b, 0, Op::Contains(0, 0));
+            ctx.violation(case_key(4, &h), format!("after this history: {m}"), case_json(4, &h));
+            continue;
+        }
+        for &a in &reps {
+            for (x, y, opx) in [(a, b, 0u8), (b, a, 1u8)] {
+                for k in 0..3 {
+                    // receiver x, argument y; as a replayable history the receiver is set A
+                    let op = [Op::Union(0, 1), Op::Intersect(0, 1), Op::Complement(0, 1)][k];
+                    let want = [x | y, x & y, x & !y & 0xffff][k];
+                    ctx.count("transitions", 1);
+                    ctx.count("subset_pairs_b4", 1);
+                    ctx.count("distinct_by_construction", 1);
+                    let _ = opx;
+                    let pair = [sets[x].clone(), sets[y].clone()];
+                    let r = apply_real(&pair, op);
+                    let same = r.is_ok() && *pair[0].bdd.borrow() == *sets[want].bdd.borrow() && *pair[1].bdd.borrow() == *sets[y].bdd.borrow();
+                    if same {
+                        continue;
+                    }
+                    let h = history(x, y, op);
+                    ctx.begin_case(|| case_json(4, &h));
+                    match r {
+                        Err(p) => ctx.violation(case_key(4, &h), format!("{} panicked: {p}", op.show()), case_json(4, &h)),
+                        Ok(_) => {
+                            if let Err(m) = check_queries(&pair, &[want as u16, y as u16], 4) {
+                                ctx.violation(case_key(4, &h), format!("after this history: {m}"), case_json(4, &h));
+                            } else {
+                                ctx.count("subset_pairs_b4_same_members_other_diagram", 1);
+                            }
+                        }
+                    }
+                }
+            }
+        }
+    }
+}
+
 fn run(ctx: &mut Ctx) {
+    pairs_b4(ctx);
     long_histories_b4(ctx);
     bfs(ctx, 2);
     bfs(ctx, 3);
